@@ -117,3 +117,16 @@ Proof.
     destruct (negb (existsb _ _)); [discriminate|]. destruct oi2; [|discriminate].
     destruct (in_range N n && differs N s n i1); discriminate.
 Qed.
+
+(* the checker's re-tabulation is the identity on the tabulated range *)
+Lemma tab1_agrees : forall (A : Type) (d : A) n (f : nat -> A) i, i < n -> tab1 d n f i = f i.
+Proof.
+  intros A d n f i H. unfold tab1. rewrite (nth_indep _ d (f 0)) by (rewrite map_length, seq_length; exact H).
+  rewrite (map_nth f (seq 0 n) 0). rewrite seq_nth by exact H. reflexivity.
+Qed.
+
+Lemma freeze_agrees : forall N s i k, i <= N -> k <= N ->
+  cnt (freeze N s) i k = cnt s i k /\ hist (freeze N s) i k = hist s i k /\ pc (freeze N s) i = pc s i.
+Proof.
+  intros N s i k Hi Hk. unfold freeze. simpl. repeat split; repeat (rewrite tab1_agrees by lia); reflexivity.
+Qed.
